@@ -27,22 +27,22 @@ def apply(fc):
     fc.add_epilogue(SPEC)
     for (fn, var, ty, oty, sent) in [('parse_year', 'year', 'u16', 'Option<u16>', 0), ('parse_month', 'month', 'u8', 'Option<u8>', 0),
                                      ('parse_day', 'day', 'u8', 'Option<u8>', 0), ('parse_minsec', 'minsec', 'u8', 'Option<u8>', 60)]:
-        fc.contract(fn, requires=['cur_ok(data)'], ensures=['%s_post(data, r)' % fn])
+        fc.contract(fn, requires=['cur_ok(data)'], ensures=['%s_post(data, r)' % fn], tags=['C11', 'C04'])
         fn_opt = 'opt_ne_u16' if ty == 'u16' else 'opt_ne_u8'
         fc.wrap_closure_block(fn, '|%s| match %s {' % (var, var),
                               '|%s: %s| -> (o: %s) ensures o == %s(%s as int, %d), { match %s {' % (var, ty, oty, fn_opt, var, sent, var))
-    fc.contract('parse_hour', requires=['cur_ok(data)'], ensures=['parse_hour_post(data, r)'])
+    fc.contract('parse_hour', requires=['cur_ok(data)'], ensures=['parse_hour_post(data, r)'], tags=['C04'])
     fc.contract('remaining_bits', requires=['cur_ok(data)'],
                 ensures=['forall|orig: Seq<u8>, p: int| #[trigger] at(orig, data, p) ==> r == 8 * orig.len() - p',
-                         'r == 8 * data.0@.len() - data.1'])
+                         'r == 8 * data.0@.len() - data.1'], tags=['C14'])
     fc.body_prefix('remaining_bits', 'proof { at_unfold(data); }')
     # outside Verus's subset (Result::map with closures, str methods): assumed here, discharged in K (bounded, see C13)
-    fc.contract('parse_6bit_ascii', requires=['cur_ok(input)'], ensures=['text_post(input, size as int, r)'], external_body=True)
-    fc.contract('message_type', requires=['small(data@.len() as int)'], ensures=['message_type_post(data, r)'])
-    fc.contract('message_type_bits', requires=['cur_ok(data)'], ensures=['message_type_bits_post(data, r)'])
+    fc.contract('parse_6bit_ascii', requires=['cur_ok(input)'], ensures=['text_post(input, size as int, r)'], external_body=True, tags=['C13'])
+    fc.contract('message_type', requires=['small(data@.len() as int)'], ensures=['message_type_post(data, r)'], tags=['C09', 'C19'])
+    fc.contract('message_type_bits', requires=['cur_ok(data)'], ensures=['message_type_bits_post(data, r)'], tags=['C09', 'C19'])
     fc.body_prefix('message_type_bits', 'proof { at_self(data); }')
     # format! in the error arm; only called from parse_6bit_ascii: K, complete over all 256 inputs
-    fc.contract('sixbit_to_ascii', external_body=True)
-    fc.contract('u8_to_bool', requires=['data <= 1'], ensures=['r == (data == 1)'])
+    fc.contract('sixbit_to_ascii', external_body=True, tags=['C13'])
+    fc.contract('u8_to_bool', requires=['data <= 1'], ensures=['r == (data == 1)'], tags=['C04'])
     # leading_zeros / shift tricks: K, complete over all widths 1..=31, offsets 0..7, contents
-    fc.contract('signed_i32', requires=['cur_ok(input)', '1 <= len <= 31'], ensures=['signed_post(input, len as int, r)'], external_body=True)
+    fc.contract('signed_i32', requires=['cur_ok(input)', '1 <= len <= 31'], ensures=['signed_post(input, len as int, r)'], external_body=True, tags=['C10'])
